@@ -137,7 +137,15 @@ type half struct {
 	buf     []byte
 	wclosed bool // the writing end was closed: reader gets io.EOF after draining
 	rclosed bool // the reading end was closed: writer gets EPIPE
+	limit   int  // > 0: a Write waits while limit or more bytes are unread (a peer that has stopped reading stalls the writer)
 }
+
+type pipeLimit struct{ n int }
+
+// SetPipeLimit makes every connection dialled afterwards in this execution bounded: a Write blocks while n or more bytes are
+// unread, until the other end reads or either end closes - the send buffer of a TCP connection whose peer stopped reading.
+// (Deadlines never expire in this world, so a stalled Write ends only with a read or a close.)
+func SetPipeLimit(n int) { vsched.Cur().NetRegistry()["#pipe-limit"] = &pipeLimit{n} }
 
 type conn struct {
 	local, remote         addr
@@ -189,6 +197,9 @@ func DialFrom(local, address string) (net.Conn, error) {
 	}
 	ab := &half{obj: vsched.NewObj("pipe " + local + "->" + key)}
 	ba := &half{obj: vsched.NewObj("pipe " + key + "->" + local)}
+	if pl, ok := w.NetRegistry()["#pipe-limit"].(*pipeLimit); ok {
+		ab.limit, ba.limit = pl.n, pl.n
+	}
 	client := (&conn{local: addr(local), remote: addr(key), in: ba, out: ab}).names()
 	server := (&conn{local: addr(key), remote: addr(local), in: ab, out: ba}).names()
 	vsched.Point("connect (enqueue in backlog) "+key, 0x305, nil, l.obj)
@@ -215,7 +226,11 @@ func (c *conn) Read(p []byte) (int, error) {
 }
 
 func (c *conn) Write(p []byte) (int, error) {
-	vsched.Point(c.nWrite, 0x312, nil, c.out.obj)
+	var ready func() bool
+	if c.out.limit > 0 {
+		ready = func() bool { return len(c.out.buf) < c.out.limit || c.closed || c.out.rclosed }
+	}
+	vsched.Point(c.nWrite, 0x312, ready, c.out.obj)
 	if c.closed {
 		return 0, &net.OpError{Op: "write", Net: "tcp", Source: c.local, Addr: c.remote, Err: errClosedConn}
 	}
